@@ -63,14 +63,16 @@ func NewScheme() *runtime.Scheme {
 
 // World is the whole simulated cluster plus the real controllers.
 type World struct {
-	Scheme  *runtime.Scheme
-	Store   *Store
-	Client  *Client       // what controllers use (counted, faultable)
-	Raw     client.Client // same store, no counting / faults (harness, env, handlers' readers)
-	Ctls    []*Ctl
-	ctlBy   map[string]*Ctl
-	Env     []EnvModel
-	nameSeq int
+	// ColdStart: Settle leaves the environment models alone (scenario option ColdStart)
+	ColdStart bool
+	Scheme    *runtime.Scheme
+	Store     *Store
+	Client    *Client       // what controllers use (counted, faultable)
+	Raw       client.Client // same store, no counting / faults (harness, env, handlers' readers)
+	Ctls      []*Ctl
+	ctlBy     map[string]*Ctl
+	Env       []EnvModel
+	nameSeq   int
 	// FreeQueues: safety mode. Every controller may reconcile every primary object it knows at any time
 	// (a sound over-approximation: informer resyncs wake level-triggered controllers spuriously anyway);
 	// queue contents are then irrelevant and not part of the state key. Liveness checks use real queues.
